@@ -1,7 +1,7 @@
 (* C04 — the bridge from the regenerated helicity-frame conventions to the abstract algebra, for
    GENERAL proper rotations (the stabiliser argument).  Proofs; the statements are in
    C04_general_props.v.  F(q) := Ry(-Theta q) . Rz(-Phi q) is [frameM] of C04_lemmas (regenerated). *)
-From AV Require Import DenR Mat Rot Rot3.
+From AV Require Import DenR Mat Rot Rot3 Rot3Euler.
 From AVchk Require Import Gen_C04 C04_lemmas.
 From Coq Require Import Lra Lia Psatz.
 Open Scope R_scope.
@@ -394,4 +394,80 @@ Proof.
   - intros j g [] [] _ _. unfold delta. cbn. rewrite Cconj_1. ring.
   - intros j a [] [] _ _ H. exfalso. apply H. reflexivity.
   - intros. ring.
+Qed.
+
+(* ---------- Euler angles of the Wigner rotation (compute_wigner_angles, regenerated trees) ---------- *)
+
+Definition envM (M : M3) : env :=
+  env_of [("m11", a11 M); ("m12", a12 M); ("m13", a13 M); ("m21", a21 M); ("m22", a22 M); ("m23", a23 M);
+          ("m31", a31 M); ("m32", a32 M); ("m33", a33 M)].
+Definition wAlpha (M : M3) : R := denR (envM M) wigner_alpha.
+Definition wBeta (M : M3) : R := denR (envM M) wigner_beta.
+Definition wGamma (M : M3) : R := denR (envM M) wigner_gamma.
+
+Lemma wigner_angle_values M :
+  wAlpha M = atan2 (a32 M) (a31 M) /\ wBeta M = acos (a33 M) /\ wGamma M = atan2 (a23 M) (- a13 M).
+Proof.
+  unfold wAlpha, wBeta, wGamma, wigner_alpha, wigner_beta, wigner_gamma, envM. den_simpl.
+  repeat split. f_equal. field.
+Qed.
+
+Lemma wigner_angles_wd M : proper M -> -1 < a33 M < 1 ->
+  wdR (envM M) wigner_alpha /\ wdR (envM M) wigner_beta /\ wdR (envM M) wigner_gamma.
+Proof.
+  intros HM H33.
+  pose proof (proper_right_inverse M HM) as Hr. destruct HM as [Ho Hd]. unfold orth in Ho.
+  destruct M as [m11 m12 m13 m21 m22 m23 m31 m32 m33].
+  unfold tr3, mul3, id3 in *. cbn [a11 a12 a13 a21 a22 a23 a31 a32 a33] in *.
+  injection Ho as O11 O12 O13 O21 O22 O23 O31 O32 O33.
+  injection Hr as R11 R12 R13 R21 R22 R23 R31 R32 R33.
+  unfold wigner_alpha, wigner_beta, wigner_gamma, envM. den_simpl.
+  cbn [a11 a12 a13 a21 a22 a23 a31 a32 a33] in *.
+  assert (m33 * m33 < 1) by nra.
+  assert (Ha : m32 <> 0 \/ m31 <> 0).
+  { destruct (Req_dec m32 0) as [E2|]; [right|left; assumption]. intros E1. subst. nra. }
+  assert (Hg : m23 <> 0 \/ -1 / 1 * (m13 * 1) <> 0).
+  { destruct (Req_dec m23 0) as [E2|]; [right|left; assumption]. intros E1.
+    assert (m13 = 0) by lra. subst. nra. }
+  repeat split; try assumption; lra.
+Qed.
+
+(* Rz(alpha) Ry(beta) Rz(gamma), with the code's alpha, beta, gamma and the code's rotation matrices,
+   is the transpose (= inverse) of the rotation the angles were read from *)
+Theorem wigner_euler_reconstructs M : proper M -> -1 < a33 M < 1 ->
+  mmul (Rz (wAlpha M)) (mmul (Ry (wBeta M)) (Rz (wGamma M))) = transpose (emb4 M).
+Proof.
+  intros HM H33.
+  destruct (wigner_angle_values M) as (Ea & Eb & Eg). rewrite Ea, Eb, Eg.
+  pose proof (proper_right_inverse M HM) as Hr. pose proof HM as [Ho Hd]. unfold orth in Ho.
+  set (s := sqrt (1 - a33 M ^ 2)).
+  assert (H1 : 0 < 1 - a33 M ^ 2) by nra.
+  assert (Hs : 0 < s) by (apply sqrt_lt_R0; exact H1).
+  assert (Hs2 : s ^ 2 = 1 - a33 M ^ 2) by (unfold s; apply pow2_sqrt; lra).
+  assert (Hrow : a31 M ^ 2 + a32 M ^ 2 = 1 - a33 M ^ 2).
+  { destruct M as [m11 m12 m13 m21 m22 m23 m31 m32 m33]. unfold tr3, mul3, id3 in Hr.
+    cbn [a11 a12 a13 a21 a22 a23 a31 a32 a33] in *. injection Hr as _ _ _ _ _ _ _ _ R33. nra. }
+  assert (Hcol : (- a13 M) ^ 2 + a23 M ^ 2 = 1 - a33 M ^ 2).
+  { destruct M as [m11 m12 m13 m21 m22 m23 m31 m32 m33]. unfold tr3, mul3, id3 in Ho.
+    cbn [a11 a12 a13 a21 a22 a23 a31 a32 a33] in *. injection Ho as _ _ _ _ _ _ _ _ O33. nra. }
+  destruct (atan2_cos_sin (a32 M) (a31 M)) as [Hca Hsa]; [lra|].
+  destruct (atan2_cos_sin (a23 M) (- a13 M)) as [Hcg Hsg]; [lra|].
+  rewrite Hrow in Hca, Hsa. rewrite Hcol in Hcg, Hsg. fold s in Hca, Hsa, Hcg, Hsg.
+  rewrite !Rz_emb, Ry_emb, !emb4_mul, emb4_tr. f_equal.
+  rewrite Hca, Hsa, Hcg, Hsg, cos_acos by lra.
+  rewrite sin_acos by lra. unfold Rsqr. replace (1 - a33 M * a33 M) with (1 - a33 M ^ 2) by ring. fold s.
+  apply euler_zyz_of_transpose; assumption.
+Qed.
+
+(* non-vacuity: a quarter turn about x has m33 = 0 *)
+Lemma wigner_euler_example : proper quarter_x /\ -1 < a33 quarter_x < 1.
+Proof. split; [exact quarter_x_proper | unfold quarter_x; cbn [a33]; lra]. Qed.
+
+Lemma wigner_euler_full M : proper M -> -1 < a33 M < 1 ->
+  (wdR (envM M) wigner_alpha /\ wdR (envM M) wigner_beta /\ wdR (envM M) wigner_gamma) /\
+  (wAlpha M = atan2 (a32 M) (a31 M) /\ wBeta M = acos (a33 M) /\ wGamma M = atan2 (a23 M) (- a13 M)) /\
+  mmul (Rz (wAlpha M)) (mmul (Ry (wBeta M)) (Rz (wGamma M))) = transpose (emb4 M).
+Proof.
+  intros HM H. split; [exact (wigner_angles_wd M HM H)|]. split; [exact (wigner_angle_values M)|].
+  exact (wigner_euler_reconstructs M HM H).
 Qed.
